@@ -108,6 +108,7 @@ let backend = ref M.Osmosis
 let store : M.store option ref = ref None
 let tstore : M.tstore option ref = ref None
 let self_addr = ref (cstr "")
+let tx_snap : M.store option option ref = ref None
 
 let emit_msgs (r : M.response) =
   List.iteri (fun k (sm : M.submsg) ->
@@ -167,7 +168,8 @@ let tapply (r : (M.tstore * M.response) M.result) =
   (match r with M.Ok (s, resp) -> tstore := Some s; emit_msgs resp | _ -> ());
   dump_tstore ()
 
-let need_store () = match !store with Some s -> s | None -> failwith "no store"
+exception No_store
+let need_store () = match !store with Some s -> s | None -> raise No_store
 
 let s_batch_resp (b : M.batch_response) =
   Printf.sprintf "%s %s %s %s %s %s %s" (s_n b.M.br_id) (s_n b.M.br_total) (s_n b.M.br_expected) (s_n b.M.br_received)
@@ -196,9 +198,12 @@ let parse_exec (toks : string list) : M.execute_msg =
 
 let run_line (line : string) =
   let toks = List.filter (fun t -> t <> "") (String.split_on_char ' ' line) in
-  match toks with
+  try (match toks with
   | [] -> ()
   | t :: _ when String.length t > 0 && t.[0] = '#' -> ()
+  | ["tx_begin"] -> tx_snap := Some !store
+  | ["tx_commit"] -> tx_snap := None
+  | ["tx_abort"] -> (match !tx_snap with Some s -> store := s; tx_snap := None | None -> ()); emit "tx_abort"
   | "cfg" :: be :: self :: _ ->
       backend := (if be = "miniwasm" then M.Miniwasm else M.Osmosis);
       self_addr := p_str self
@@ -296,7 +301,11 @@ let run_line (line : string) =
            tstore := Some s';
            tapply (M.tmigrate s')
        | None -> failwith "no tstore")
-  | _ -> failwith ("unknown op: " ^ line)
+  | _ -> failwith ("unknown op: " ^ line))
+  with No_store ->
+    (* a call into a contract that was never instantiated: the real entry point fails on its first load *)
+    emit "res err";
+    (match toks with ("exec" | "reply" | "sudo") :: _ -> emit "st.none" | _ -> ())
 
 let () =
   let inp = if Array.length Sys.argv > 1 then open_in Sys.argv.(1) else stdin in
